@@ -308,6 +308,107 @@ pub fn matches_filter(d: &Document, filter: &Document) -> bool {
     })
 }
 
+/// Apply an update specification (operators or replacement document) to `old`; `inserting` = the document is being
+/// created by an upsert ($setOnInsert applies).
+fn apply_update(old: &Document, upd: &Document, inserting: bool) -> Document {
+    let mut new = old.clone();
+    if upd.keys().any(|k| k.starts_with('$')) {
+        if let Ok(set) = upd.get_document("$set") {
+            for (k, v) in set {
+                set_path(&mut new, k, v.clone());
+            }
+        }
+        if inserting {
+            if let Ok(set) = upd.get_document("$setOnInsert") {
+                for (k, v) in set {
+                    set_path(&mut new, k, v.clone());
+                }
+            }
+        }
+        if let Ok(unset) = upd.get_document("$unset") {
+            for (k, _) in unset {
+                new.remove(k);
+            }
+        }
+        if let Ok(inc) = upd.get_document("$inc") {
+            for (k, v) in inc {
+                let cur = get_path(&new, k).cloned();
+                let sum = match (cur, v) {
+                    (Some(Bson::Int32(a)), Bson::Int32(b)) => Bson::Int32(a + b),
+                    (Some(Bson::Int64(a)), Bson::Int32(b)) => Bson::Int64(a + *b as i64),
+                    (Some(Bson::Int64(a)), Bson::Int64(b)) => Bson::Int64(a + b),
+                    (Some(Bson::Int32(a)), Bson::Int64(b)) => Bson::Int64(a as i64 + b),
+                    (None, x) => x.clone(),
+                    (Some(x), _) => x,
+                };
+                set_path(&mut new, k, sum);
+            }
+        }
+        for (op, add_to_set) in [("$push", false), ("$addToSet", true)] {
+            if let Ok(push) = upd.get_document(op) {
+                for (k, v) in push {
+                    let mut arr = match get_path(&new, k) {
+                        Some(Bson::Array(a)) => a.clone(),
+                        _ => Vec::new(),
+                    };
+                    if !(add_to_set && arr.contains(v)) {
+                        arr.push(v.clone());
+                    }
+                    set_path(&mut new, k, Bson::Array(arr));
+                }
+            }
+        }
+        if let Ok(pull) = upd.get_document("$pull") {
+            for (k, v) in pull {
+                if let Some(Bson::Array(a)) = get_path(&new, k) {
+                    let kept: Vec<Bson> = a
+                        .iter()
+                        .filter(|x| match (x, v) {
+                            (Bson::Document(d), Bson::Document(f)) => !matches_filter(d, f),
+                            _ => *x != v,
+                        })
+                        .cloned()
+                        .collect();
+                    set_path(&mut new, k, Bson::Array(kept));
+                }
+            }
+        }
+    } else {
+        // replacement document keeps _id
+        let id = old.get("_id").cloned();
+        new = upd.clone();
+        if let Some(id) = id {
+            if !new.contains_key("_id") {
+                let mut with_id = Document::new();
+                with_id.insert("_id", id);
+                for (k, v) in new.iter() {
+                    with_id.insert(k.clone(), v.clone());
+                }
+                new = with_id;
+            }
+        }
+    }
+    new
+}
+
+/// the document an upsert starts from: a fresh _id plus the equality conditions of the filter
+fn upsert_seed(q: &Document) -> Document {
+    let mut d = Document::new();
+    d.insert("_id", Bson::ObjectId(bson::oid::ObjectId::new()));
+    for (k, v) in q {
+        match v {
+            Bson::Document(op) if op.keys().any(|k| k.starts_with('$')) => {
+                if let Some(x) = op.get("$eq") {
+                    set_path(&mut d, k, x.clone());
+                }
+            }
+            _ if !k.starts_with('$') => set_path(&mut d, k, v.clone()),
+            _ => {}
+        }
+    }
+    d
+}
+
 fn unique_violation(db: &Db, ns: &str, candidate: &Document, skip_idx: Option<usize>) -> Option<String> {
     for field in db.unique.get(ns).cloned().unwrap_or_default() {
         if let Some(v) = candidate.get(&field) {
@@ -403,6 +504,7 @@ fn handle(db: &Arc<Mutex<Db>>, cmd: &Document) -> Document {
             let mut n = 0i32;
             let mut modified = 0i32;
             let mut errs: Vec<Bson> = Vec::new();
+            let mut upserted: Vec<Bson> = Vec::new();
             if let Ok(ups) = cmd.get_array("updates") {
                 for (ui, u) in ups.iter().enumerate() {
                     let Some(u) = u.as_document() else { continue };
@@ -414,35 +516,20 @@ fn handle(db: &Arc<Mutex<Db>>, cmd: &Document) -> Document {
                         .get(&ns)
                         .map(|docs| docs.iter().enumerate().filter(|(_, d)| matches_filter(d, &q)).map(|(i, _)| i).collect())
                         .unwrap_or_default();
+                    if idxs.is_empty() && u.get_bool("upsert").unwrap_or(false) {
+                        let new = apply_update(&upsert_seed(&q), &upd, true);
+                        if let Some(msg) = unique_violation(&g, &ns, &new, None) {
+                            errs.push(Bson::Document(doc! {"index": ui as i32, "code": 11000i32, "errmsg": msg}));
+                        } else {
+                            upserted.push(Bson::Document(doc! {"index": ui as i32, "_id": new.get("_id").cloned().unwrap_or(Bson::Null)}));
+                            g.colls.entry(ns.clone()).or_default().push(new);
+                            n += 1;
+                        }
+                        continue;
+                    }
                     for idx in idxs {
                         let old = g.colls.get(&ns).unwrap()[idx].clone();
-                        let mut new = old.clone();
-                        if upd.keys().any(|k| k.starts_with('$')) {
-                            if let Ok(set) = upd.get_document("$set") {
-                                for (k, v) in set {
-                                    set_path(&mut new, k, v.clone());
-                                }
-                            }
-                            if let Ok(unset) = upd.get_document("$unset") {
-                                for (k, _) in unset {
-                                    new.remove(k);
-                                }
-                            }
-                        } else {
-                            // replacement document keeps _id
-                            let id = old.get("_id").cloned();
-                            new = upd.clone();
-                            if let Some(id) = id {
-                                if !new.contains_key("_id") {
-                                    let mut with_id = Document::new();
-                                    with_id.insert("_id", id);
-                                    for (k, v) in new.iter() {
-                                        with_id.insert(k.clone(), v.clone());
-                                    }
-                                    new = with_id;
-                                }
-                            }
-                        }
+                        let new = apply_update(&old, &upd, false);
                         if let Some(msg) = unique_violation(&g, &ns, &new, Some(idx)) {
                             errs.push(Bson::Document(doc! {"index": ui as i32, "code": 11000i32, "errmsg": msg}));
                             break;
@@ -459,10 +546,87 @@ fn handle(db: &Arc<Mutex<Db>>, cmd: &Document) -> Document {
                 }
             }
             let mut r = doc! {"ok": 1.0, "n": n, "nModified": modified};
+            if !upserted.is_empty() {
+                r.insert("upserted", upserted);
+            }
             if !errs.is_empty() {
                 r.insert("writeErrors", errs);
             }
             r
+        }
+        "findAndModify" | "findandmodify" => {
+            let q = cmd.get_document("query").cloned().unwrap_or_default();
+            let remove = cmd.get_bool("remove").unwrap_or(false);
+            let want_new = cmd.get_bool("new").unwrap_or(false);
+            let upsert = cmd.get_bool("upsert").unwrap_or(false);
+            let idx = g.colls.get(&ns).and_then(|docs| docs.iter().position(|d| matches_filter(d, &q)));
+            match (idx, remove) {
+                (Some(i), true) => {
+                    let old = g.colls.get_mut(&ns).unwrap().remove(i);
+                    doc! {"ok": 1.0, "lastErrorObject": {"n": 1i32}, "value": old}
+                }
+                (None, true) => doc! {"ok": 1.0, "lastErrorObject": {"n": 0i32}, "value": Bson::Null},
+                (Some(i), false) => {
+                    let upd = cmd.get_document("update").cloned().unwrap_or_default();
+                    let old = g.colls.get(&ns).unwrap()[i].clone();
+                    let new = apply_update(&old, &upd, false);
+                    if let Some(msg) = unique_violation(&g, &ns, &new, Some(i)) {
+                        doc! {"ok": 0.0, "code": 11000i32, "codeName": "DuplicateKey", "errmsg": msg}
+                    } else {
+                        g.colls.get_mut(&ns).unwrap()[i] = new.clone();
+                        doc! {"ok": 1.0, "lastErrorObject": {"n": 1i32, "updatedExisting": true}, "value": if want_new { new } else { old }}
+                    }
+                }
+                (None, false) if upsert => {
+                    let upd = cmd.get_document("update").cloned().unwrap_or_default();
+                    let new = apply_update(&upsert_seed(&q), &upd, true);
+                    if let Some(msg) = unique_violation(&g, &ns, &new, None) {
+                        doc! {"ok": 0.0, "code": 11000i32, "codeName": "DuplicateKey", "errmsg": msg}
+                    } else {
+                        g.colls.entry(ns.clone()).or_default().push(new.clone());
+                        let id = new.get("_id").cloned().unwrap_or(Bson::Null);
+                        doc! {"ok": 1.0, "lastErrorObject": {"n": 1i32, "updatedExisting": false, "upserted": id}, "value": if want_new { Bson::Document(new) } else { Bson::Null }}
+                    }
+                }
+                (None, false) => doc! {"ok": 1.0, "lastErrorObject": {"n": 0i32, "updatedExisting": false}, "value": Bson::Null},
+            }
+        }
+        "count" => {
+            let q = cmd.get_document("query").cloned().unwrap_or_default();
+            let n = g.colls.get(&ns).map(|docs| docs.iter().filter(|d| matches_filter(d, &q)).count()).unwrap_or(0);
+            doc! {"ok": 1.0, "n": n as i32}
+        }
+        "aggregate" => {
+            // what count_documents sends: [$match, ($skip, $limit,) $group {_id: 1, n: {$sum: 1}}]; other pipelines: $match only
+            let mut docs: Vec<Document> = g.colls.get(&ns).cloned().unwrap_or_default();
+            let mut unsupported = None;
+            if let Ok(pipe) = cmd.get_array("pipeline") {
+                for stage in pipe {
+                    let Some(stage) = stage.as_document() else { continue };
+                    for (k, v) in stage {
+                        match (k.as_str(), v) {
+                            ("$match", Bson::Document(f)) => docs.retain(|d| matches_filter(d, f)),
+                            ("$limit", x) => {
+                                let l = x.as_i64().or(x.as_i32().map(|v| v as i64)).unwrap_or(0).max(0) as usize;
+                                docs.truncate(l);
+                            }
+                            ("$skip", x) => {
+                                let l = x.as_i64().or(x.as_i32().map(|v| v as i64)).unwrap_or(0).max(0) as usize;
+                                docs = docs.into_iter().skip(l).collect();
+                            }
+                            ("$group", Bson::Document(gspec)) if gspec.len() == 2 && gspec.get_document("n").map(|n| n.contains_key("$sum")).unwrap_or(false) => {
+                                let n = docs.len() as i64;
+                                docs = if n == 0 { Vec::new() } else { vec![doc! {"_id": gspec.get("_id").cloned().unwrap_or(Bson::Null), "n": n}] };
+                            }
+                            (other, _) => unsupported = Some(other.to_string()),
+                        }
+                    }
+                }
+            }
+            match unsupported {
+                Some(st) => doc! {"ok": 0.0, "errmsg": format!("pipeline stage {st} is not implemented by the verification stub"), "code": 40324i32},
+                None => doc! {"ok": 1.0, "cursor": {"id": 0i64, "ns": ns, "firstBatch": docs.into_iter().map(Bson::Document).collect::<Vec<_>>()}},
+            }
         }
         "delete" => {
             let mut n = 0i32;
